@@ -106,8 +106,8 @@ func (monC14) TaskEnd(s *Sim, t *Task) {
 		ann := v.EDS.Annotations
 		specLetter := letterOfTpl(&v.EDS.Spec.Template)
 		var upToDate *edsv1.ExtendedDaemonSetReplicaSet
-		for _, r := range own {
-			if letterOfTpl(&r.Spec.Template) == specLetter {
+		for _, r := range v.ERSList { // list order: deterministic
+			if own[r.Name] != nil && letterOfTpl(&r.Spec.Template) == specLetter {
 				upToDate = r
 			}
 		}
